@@ -1,0 +1,89 @@
+//! Verification hooks (only compiled with `--cfg capy_verif`).
+//!
+//! Thin, read-only re-exports of crate-private items so that an external
+//! harness can observe type layouts and symbol mangling. Nothing here is used
+//! by the compiler itself.
+
+use hir::common::{
+    ComptimeLoc, ConcreteGlobalLoc, ConcreteLambdaLoc, ConcreteLoc, NaiveGlobalLoc,
+    NaiveLambdaLoc, NaiveLoc, Ty,
+};
+use internment::Intern;
+use interner::Interner;
+
+use crate::layout::GetLayoutInfo;
+use crate::mangle::Mangle;
+
+#[derive(Debug, Clone, PartialEq, Eq)]
+pub struct LayoutInfo {
+    pub size: u32,
+    pub align: u32,
+    pub stride: u32,
+    /// member offsets, for struct-like types (looks through distincts/variants)
+    pub offsets: Option<Vec<u32>>,
+    /// tag offset, for tagged sum types (looks through distincts/variants)
+    pub discriminant_offset: Option<u32>,
+}
+
+pub fn calc_layouts(tys: impl Iterator<Item = Intern<Ty>>, pointer_bit_width: u32) {
+    crate::layout::calc_layouts(tys, pointer_bit_width)
+}
+
+pub fn layout_of(ty: Intern<Ty>) -> LayoutInfo {
+    LayoutInfo {
+        size: ty.size(),
+        align: ty.align(),
+        stride: ty.stride(),
+        offsets: ty.struct_layout().map(|l| l.offsets().to_vec()),
+        discriminant_offset: ty.enum_layout().map(|l| l.discriminant_offset()),
+    }
+}
+
+pub fn mangle_naive_global(l: NaiveGlobalLoc, mod_dir: &std::path::Path, i: &Interner) -> String {
+    l.to_mangled_name(mod_dir, i)
+}
+
+pub fn mangle_naive_lambda(l: NaiveLambdaLoc, mod_dir: &std::path::Path, i: &Interner) -> String {
+    l.to_mangled_name(mod_dir, i)
+}
+
+pub fn mangle_naive(l: NaiveLoc, mod_dir: &std::path::Path, i: &Interner) -> String {
+    l.to_mangled_name(mod_dir, i)
+}
+
+pub fn mangle_concrete_global(
+    l: ConcreteGlobalLoc,
+    mod_dir: &std::path::Path,
+    i: &Interner,
+) -> String {
+    l.to_mangled_name(mod_dir, i)
+}
+
+pub fn mangle_concrete_lambda(
+    l: ConcreteLambdaLoc,
+    mod_dir: &std::path::Path,
+    i: &Interner,
+) -> String {
+    l.to_mangled_name(mod_dir, i)
+}
+
+pub fn mangle_concrete(l: ConcreteLoc, mod_dir: &std::path::Path, i: &Interner) -> String {
+    l.to_mangled_name(mod_dir, i)
+}
+
+pub fn mangle_comptime(l: ComptimeLoc, mod_dir: &std::path::Path, i: &Interner) -> String {
+    l.to_mangled_name(mod_dir, i)
+}
+
+pub fn mangle_comptime_data(
+    l: ComptimeLoc,
+    name: &str,
+    mod_dir: &std::path::Path,
+    i: &Interner,
+) -> String {
+    (l, name).to_mangled_name(mod_dir, i)
+}
+
+pub fn mangle_internal(name: &str) -> String {
+    crate::mangle::mangle_internal(name)
+}
